@@ -25,7 +25,10 @@ META = {
     "validated reference semantics), maybe_fix, lonlat_bounds (entry dispatch, safe / quick wrap rule: sorted, never wider, "
     "ends are input longitudes up to a turn), mid_longitude, Geometry.geojson with its collection recursion (every member "
     "rendered with the same resolution / wrapdateline; over the reals every rendered member is the projection of a geometry "
-    "without an edge longer than the resolution).  Tied to /repo by an exact correspondence on dyadic inputs (vertex lists, "
+    "without an edge longer than the resolution), projected_lon (sampled meridian, failed points dropped, < 2 points = empty line), "
+    "chop_along_antimeridian (no CRS refused, miss = identity, hit = multigeom of the pieces; chopped geometries are driven through "
+    "the model with shapely's intersects / split captured on the real run), _geojson_to_shapely (Feature / FeatureCollection of "
+    "0, 1, n features / plain geometry / no type), densify of an empty coordinate list (fix3-C07).  Tied to /repo by an exact correspondence on dyadic inputs (vertex lists, "
     "loop counts, all geometry kinds, every option combination with a stand-in exact projection that also fails like pyproj "
     "does, public entry points Geometry.filter / to_crs / geojson / lonlat_bounds / mid_longitude / multigeom / clip_lon180) "
     "and by oracles on real outputs (max edge length, retention, collinearity, area/length, vertex-by-vertex equality with a "
@@ -33,13 +36,13 @@ META = {
     "note": "Trusted: Lean kernel + {propext, Classical.choice, Quot.sound}; shapely length/interpolate contract (EdgeOk), shapely "
     "is_valid / buffer(0) / intersects / split / centroid / simplify and pyproj numerics are parameters (is_valid is observed on the "
     "real run and handed to the model; round-trip precision is sampled, not proved); IEEE rounding not modelled; the model follows "
-    "/repo main incl. ee68993 (clip_lon180 on empty Multi*), the harness probes which variant the tree has.  Known findings: "
+    "/repo main incl. ee68993 (clip_lon180 on empty Multi*), the harness probes which variant the tree has.  Known finding until fix3-C07 (1916e34) is merged: "
     "densify([]) is an IndexError, so segmented / to_crs(resolution) / geojson(resolution) fail on geometries with an empty member "
-    "(modelled as found; key densify-raises-on-empty-geometry).  As found and modelled, not repaired (outside the valid areas the "
+    "(key densify-raises-on-empty-geometry; the model follows the repaired code, the harness probes the tree).  As found and modelled, not repaired (outside the valid areas the "
     "property quantifies over): Geometry.filter / dropna / check_and_fix raise ValueError when only 1-2 vertices of a polygon shell or "
     "ring survive and GEOSException when the shell is gone but a hole survives (theorem filter_few_left_raises).  NOT mirrored in the "
-    "Lean model (inventory of the anchor files): geom.py — projected_lon (float32 arange, pyproj) and the shapely split behind "
-    "chop_along_antimeridian (parameters hit / split; the correspondence only sends geometries that are not chopped), "
+    "Lean model (inventory of the anchor files): geom.py — the float32 rounding of projected_lon's arange (exact stream uses dyadic steps), shapely's "
+    "intersects / split themselves (parameters hit / split, observed on the real run), force_2d (Z dropping), "
     "_auto_resolution's sqrt(area) (witness s in autoResOf), Geometry.simplify / explore, shapely's interpolate/length beyond the "
     "EdgeOk contract; crs.py — _make_crs_transform's id()-keyed cache and _crs_cache (histories are oracle-only: churn, always_xy), "
     "the scalar / tuple branch of transformer_to_crs (no harmonisation there: exercised through the stand-in projection that fails in "
@@ -338,6 +341,39 @@ class Echo:
         return x, y
 
 
+_DENSIFY_FIXED: Dict[int, bool] = {}
+
+
+def densify_fixed(gm) -> bool:
+    """which `densify` the tree has: fix3-C07 (an empty coordinate list comes back empty) or as found (IndexError).
+    The model follows the repaired code; on an as-found tree the correspondence skips the inputs that reach
+    `densify([])` (they are reported by the oracle key densify-raises-on-empty-geometry instead)."""
+    k = id(gm)
+    if k not in _DENSIFY_FIXED:
+        try:
+            _DENSIFY_FIXED[k] = list(gm.densify([], 1.0)) == []
+        except Exception:  # pylint: disable=broad-except
+            _DENSIFY_FIXED[k] = False
+    return _DENSIFY_FIXED[k]
+
+
+def has_empty_ring(shp) -> bool:
+    """a LineString / LinearRing / Polygon member without coordinates (what `densify` is called on)"""
+    t = shp.geom_type
+    if t in ("LineString", "LinearRing", "Polygon"):
+        return shp.is_empty
+    if t in ("Point", "MultiPoint"):
+        return False
+    return any(has_empty_ring(x) for x in shp.geoms)
+
+
+def skip_empty_densify(R: Run, gm, shp, res) -> bool:
+    if densify_fixed(gm) or res is None or isinstance(res, str) or not (res > 0) or not has_empty_ring(shp):
+        return False
+    R.count("skipped:densify-of-empty-ring-on-as-found-tree")
+    return True
+
+
 class fake_transformers:
     """Install `factory(pyproj_from, pyproj_to) -> object with .transform(x, y)` as the transformer odc-geo uses.
     Preferred hook: the module-level transformer factory `_make_crs_transform` (keeps `transformer_to_crs` and its NaN
@@ -513,6 +549,9 @@ def real_densify(gm, coords, r):
 def densify_case(R: Run, gm, coords, r: float, tag: str):
     """one exact-stream case of `densify` + the oracle on the same output"""
     rr = F(r)
+    if not coords and r > 0 and not densify_fixed(gm):
+        R.count("skipped:densify-of-empty-ring-on-as-found-tree")
+        return
     line = f"c07 densify {frac_s(r)} {pts_s(coords)}"
     box: Dict[str, Any] = {}
     cls = classify(coords, rr) if (coords and rr > 0) else "safe"
@@ -702,7 +741,7 @@ def oracle_segmented(R: Run, shp, r: float, out, kind: str):
 def run_segmented(R: Run):
     gm, _ = _mods()
     rng = R.rng
-    for _ in range(R.pick(25, 300)):
+    for _ in range(R.pick(20, 300)):
         for fam in ("axis", "pyth"):
             kinds, r = shapes_for(rng, fam)
             for kind, shp in kinds.items():
@@ -744,6 +783,8 @@ def run_segmented(R: Run):
     for kind, shp in (("empty-line", sg.LineString()), ("empty-polygon", sg.Polygon()),
                       ("collection-with-empty", sg.GeometryCollection([sg.Point(1, 2), sg.LineString()]))):
         for r in (1.0, 0.0, -1.0):
+            if skip_empty_densify(R, gm, shp, r):
+                continue
             line = f"c07 seg {frac_s(r)} {enc_geom(shp)}"
 
             def fe():
@@ -773,7 +814,7 @@ def run_segmented(R: Run):
     # float stream on every kind: arbitrary rotation / position / resolution
     from shapely import affinity
 
-    for it in range(R.pick(20, 300)):
+    for it in range(R.pick(16, 300)):
         if it % 2:
             kinds, _ = shapes_for(rng, rng.choice(["axis", "pyth"]))
             ang = rng.uniform(0, 360)
@@ -1403,7 +1444,7 @@ def run_to_crs_pyproj(R: Run):
     run_spelling_matrix(R)
 
     # ---- C. caches as a history
-    nbad = run_crs_churn(R, R.pick(300, 1500))
+    nbad = run_crs_churn(R, R.pick(220, 1500))
     R.count("crs-churn-bad-tiles", nbad)
 
     # ---- D. resolution="auto" on every kind (zero-area kinds used to hang)
